@@ -195,6 +195,12 @@ pub fn directed_programs(kinds: &[Kind], seed: u64) -> Vec<Program> {
         }
         if k == Kind::Fadt {
             // every pub field of the builder written directly (index 42 is the checksum byte itself)
+            // a Length field set below the real size while the tail fields are non-zero
+            for len in [0u64, 36, 244, 268, 275, 276, 300] {
+                let mut p = base.clone();
+                p.ops = vec![Op::Fadt(FadtSet::Field(41, 0x1122_3344_5566_7788)), Op::Fadt(FadtSet::Field(40, 0x0102_0304_0506_0708)), Op::Fadt(FadtSet::Field(43, len))];
+                out.push(p);
+            }
             for i in 0..43u8 {
                 let mut p = base.clone();
                 p.ops = vec![Op::Fadt(FadtSet::Field(i, 0x5a5b_5c5d_5e5f_6061u64.wrapping_add(i as u64))), Op::Fadt(FadtSet::AcpiEnable)];
